@@ -18,7 +18,7 @@ from optimum.quanto.nn import QModuleMixin
 
 ACT = {"none": None, "qint8": O.QT8["qint8"], "qfloat8_e4m3fn": O.QT8["qfloat8_e4m3fn"], "qfloat8_e5m2": O.QT8["qfloat8_e5m2"]}
 SERIALIZERS = ["pickle", "weights_only", "safetensors"]
-TARGETS = ["same", "same", "default", "requantize"]
+TARGETS = ["same", "same", "default", "requantize", "same-frozen", "same-assign"]
 
 
 @st.composite
@@ -164,13 +164,16 @@ def _exec_history(case):
         if target == "requantize":
             r = cut(requantize, tgt, dict(sd2))
         else:
-            if target == "same":
+            if target in ("same", "same-frozen", "same-assign"):
                 quantize(tgt, weights=wq, activations=aq)
+                if target == "same-frozen" and fz == "frozen":
+                    # a frozen model reloaded over an already frozen model of the same architecture
+                    freeze(tgt)
             else:
                 quantize(tgt)
-            r = cut(tgt.load_state_dict, dict(sd2))
+            r = cut(tgt.load_state_dict, dict(sd2), assign=True) if target == "same-assign" else cut(tgt.load_state_dict, dict(sd2))
         if isinstance(r, Raised):
-            if lnq and target != "same":
+            if lnq and target in ("default", "requantize"):
                 return out.fail(f"load/{target}/raises:{r.type}{lnq}", f"{r.text} ({case['wq']}, act {case['aq']}, {fam}, {fz})")
             return out.fail(f"{ttag}/raises:{r.type}", f"{r.text} ({case['wq']}, act {case['aq']}, {fam})")
         # (3) module by module
